@@ -808,6 +808,39 @@ pub fn run(sb: &Sandbox, w: &World) -> Result<History, TraceError> {
     let fin = open("stdin", false).map_err(|e| te(format!("stdin: {e}")))?;
     let fout = open("stdout", true).map_err(|e| te(format!("stdout: {e}")))?;
     let ferr = open("stderr", true).map_err(|e| te(format!("stderr: {e}")))?;
+    // a terminal as standard output: a pseudo-terminal in raw mode whose master side is drained
+    // by a thread of the simulator
+    let mut pty_reader: Option<std::thread::JoinHandle<Vec<u8>>> = None;
+    let mut pty_slave: Option<std::fs::File> = None;
+    if w.stdout_tty {
+        use std::os::fd::FromRawFd;
+        let (mut master, mut slave) = (0i32, 0i32);
+        let r = unsafe { libc::openpty(&mut master, &mut slave, std::ptr::null_mut(), std::ptr::null(), std::ptr::null()) };
+        if r != 0 {
+            return Err(te(format!("openpty: {}", std::io::Error::last_os_error())));
+        }
+        unsafe {
+            let mut t: libc::termios = std::mem::zeroed();
+            libc::tcgetattr(slave, &mut t);
+            libc::cfmakeraw(&mut t);
+            libc::tcsetattr(slave, libc::TCSANOW, &t);
+            libc::fcntl(master, libc::F_SETFD, libc::FD_CLOEXEC);
+        }
+        pty_slave = Some(unsafe { std::fs::File::from_raw_fd(slave) });
+        let mut m = unsafe { std::fs::File::from_raw_fd(master) };
+        pty_reader = Some(std::thread::spawn(move || {
+            use std::io::Read;
+            let mut out = Vec::new();
+            let mut buf = [0u8; 4096];
+            loop {
+                match m.read(&mut buf) {
+                    Ok(0) | Err(_) => break,
+                    Ok(n) => out.extend_from_slice(&buf[..n]),
+                }
+            }
+            out
+        }));
+    }
 
     let mut cmd = std::process::Command::new(&exe);
     cmd.args(w.argv.iter().map(|a| World::subst(a, &root)));
@@ -816,7 +849,15 @@ pub fn run(sb: &Sandbox, w: &World) -> Result<History, TraceError> {
         cmd.env(k, World::subst(v, &root));
     }
     cmd.current_dir(&cwd_abs);
-    cmd.stdin(fin).stdout(fout).stderr(ferr);
+    match pty_slave.take() {
+        Some(slave) => {
+            drop(fout);
+            cmd.stdin(fin).stdout(slave).stderr(ferr);
+        }
+        None => {
+            cmd.stdin(fin).stdout(fout).stderr(ferr);
+        }
+    }
     let umask = w.umask.unwrap_or(0o022);
     unsafe {
         cmd.pre_exec(move || {
@@ -841,6 +882,8 @@ pub fn run(sb: &Sandbox, w: &World) -> Result<History, TraceError> {
     }
     let t_mat = t_start.elapsed();
     let child = cmd.spawn().map_err(|e| te(format!("spawn: {e}")))?;
+    // our copies of the child's standard streams (the terminal's slave side among them) go now
+    drop(cmd);
     let t_spawn = t_start.elapsed();
     let pid = child.id() as i32;
     // we reap the child ourselves
@@ -1268,7 +1311,11 @@ pub fn run(sb: &Sandbox, w: &World) -> Result<History, TraceError> {
     }
 
     let t_loop = t_start.elapsed();
-    let stdout = std::fs::read(sb.io.join("stdout")).unwrap_or_default();
+    let stdout = match pty_reader.take() {
+        // every process holding the slave side is gone: the master side reports the end
+        Some(h) => h.join().unwrap_or_default(),
+        None => std::fs::read(sb.io.join("stdout")).unwrap_or_default(),
+    };
     let stderr = std::fs::read(sb.io.join("stderr")).unwrap_or_default();
     let unroot = |b: Vec<u8>| -> Vec<u8> {
         if contains(&b, root.as_bytes()) {
